@@ -48,13 +48,13 @@ def wire_pipeline(chk, prop, gen_inv, variants_quick, variants_thorough, harness
             raise ToolError("TLC generated no cases (%s)" % label)
         out = os.path.join(wd, "run_" + label)
         harness("vh", ["wire", "--prop", prop, "--cases", cases, "--out", out, "--seed", chk.seed,
-                       "--variants", variants] + list(harness_extra))
+                       "--variants", variants] + (["--deep", 1] if label == "flat22" else []) + list(harness_extra))
         run = run_sample(chk, out)
         chk.extra.setdefault("harness_runs", []).append(
             {"layer": label, "cases_from_tlc": r["cases"], "events": run["events"],
              "value_tags_seen": run.get("value_tags_seen")})
         validate_with_retries(chk, "trace_" + label, "Trace_Wire.tla", os.path.join(out, "trace.ndjson"),
-                              os.path.join(out, "trace.side.ndjson"), constants={"NestingDomain": 16},
+                              os.path.join(out, "trace.side.ndjson"), constants={"NestingDomain": 32},
                               describe=lambda ev: wire_describe(ev))
 
 
@@ -372,10 +372,14 @@ def check_C08(chk):
     chk.traces = max(0, run["evaluations"] - len(chk.violations))
 
 
-COST_CONST = dict(A=256, B=64, Ratio=3, MinKiB=64, CallsPerKiB=2048)
+COST_CONST = dict(A=256, B=64, Ratio=3, MinKiB=64, CallsPerKiB=2048, KInstrPerKiB=2000)
 
 
 def cost_describe(ev):
+    if ev.get("ev") == "instr":
+        return ("parse work is not linear: family %s n=%s mode=%s: %s KiB offered, %s thousand instructions executed "
+                "(callgrind), status %s" % (ev.get("family"), ev.get("n"), ev.get("mode"), ev.get("kib_in"), ev.get("kinstr"),
+                                            ev.get("status")))
     return ("parse cost is not linear: family %s n=%s mode=%s: %s KiB offered, %s KiB consumed, %s KiB allocated "
             "(peak %s KiB, %s calls), %s ms, status %s" % (
                 ev.get("family"), ev.get("n"), ev.get("mode"), ev.get("kib_in"), ev.get("kib_used"),
@@ -389,8 +393,9 @@ def check_C15(chk):
                 "closed / with members, repeated 30-deep chains, set width, attributes, same-name attributes, groups, "
                 "members, member values, stray end-collections, value length, name length), sizes doubling from 16 KiB "
                 "to 1 MiB (4 MiB thorough), blocking and async parser, each parse in a child process under a counting "
-                "allocator; distinct = (family, size, parser) triples; judged by Trace_Cost (A=256 B/B, doubling ratio "
-                "<= 3)")
+                "allocator; plus the same parses at 32-256 KiB (to 1 MiB thorough) under valgrind/callgrind: instructions "
+                "executed, a deterministic measure of work; distinct = (family, size, parser, measure) tuples; judged by "
+                "Trace_Cost (A=256 B/B, doubling ratio <= 3; <= 2000 k-instr/KiB, work(2n) <= 2.5 work(n))")
     chk.assumptions = ["CPU work is observed through allocation counts; wall-clock only as a back-stop (3 s + 10 ms/KiB)",
                        "constants from DESIGN.md section 6 C15", "TLC"]
     build_harness()
